@@ -204,6 +204,20 @@ def run(ctx, name, kind, **kw):
         for n in range(lo, hi):
             chk_next(ctx, n, table[n], "next_prime.exhaustive")
         ctx.nontrivial.add("next_prime.exhaustive|[%d,%d)" % (lo, hi))
+        # the same questions in other orders: descending, and shuffled with is_prime / factorization calls in between
+        for n in range(hi - 1, lo - 1, -3):
+            chk_next(ctx, n, table[n], "next_prime.order_of_calls")
+        order = list(range(lo, hi, 5))
+        rng.shuffle(order)
+        for n in order:
+            if n % 2:
+                NT.is_prime(n + 2)
+            else:
+                NT.factorization(abs(n) + 7)
+            chk_next(ctx, n, table[n], "next_prime.order_of_calls")
+            if n >= 2:
+                chk_isprime(ctx, n, bool(s[n]), "is_prime.order_of_calls")
+        ctx.nontrivial.add("order_of_calls|[%d,%d)" % (lo, hi))
     elif kind == "nextprime_gap":
         for p, g in GAPS[: kw["ngaps"]]:
             assert nt.is_prime(p) and nt.is_prime(p + g) and nt.next_prime(p) == p + g
